@@ -431,9 +431,76 @@ def stress_part(ctx, quick):
     ctx.notes["stress_renders"] = n
 
 
+def reload_part(ctx, quick):
+    """free-running threads on one auto_reload file template while a writer saves new versions: the logs of the hook
+    events are validated by TLC against specs/ReloadTrace.tla (C->S); a corrupted log must be rejected"""
+    import multiprocessing
+    from .. import reload_trace as R
+    # the specification itself
+    runs = R.model_runs()
+    q, f = runs["quiet"], runs["free"]
+    ctx.states += q.distinct + f.distinct
+    ctx.transitions += q.states + f.states
+    if not q.ok():
+        if q.violation:
+            ctx.violation("TLC: %s violated on Reload (file changes only between calls)" % q.violation, dict(kind="tlc", tail=q.stdout[-3000:]))
+        else:
+            ctx.fail("Reload model run failed: %s %s" % (q.error, q.stdout[-1500:]))
+        return
+    if f.violation not in (None, "Fresh"):
+        ctx.violation("TLC: %s violated on Reload (file changes during calls)" % f.violation, dict(kind="tlc", tail=f.stdout[-3000:]))
+        return
+    ctx.notes["reload_model"] = dict(quiet_states=q.distinct, free_states=f.distinct,
+                                     fresh_with_writes_during_calls="violated (recorded C16 finding)" if f.violation == "Fresh" else "holds")
+    # traces of the real code
+    ntr = 12 if quick else 96
+    jobs = [dict(nthreads=3, ncalls=4 if k % 2 == 0 else 6, nwrites=3, quiet=(k % 2 == 0), seed=ctx.seed * 1000 + k) for k in range(ntr)]
+    with multiprocessing.get_context("spawn").Pool(4) as pool:
+        res = pool.map(R._record_job, jobs)
+    traces = [tr for tr, _ in res]
+    for (tr, fails), job in zip(res, jobs):
+        if fails:
+            ctx.violation("free-running threads on an auto_reload file template (%s): render() raised %s" % (
+                "file changes between calls" if job["quiet"] else "file changes during calls", fails[0]),
+                dict(kind="reload-trace", events=tr["events"][:400]))
+            return
+    # negative control: the last rendered version of a trace is changed -- no placement may explain it
+    import copy
+    ctrl = copy.deepcopy(traces[1])
+    i = [k for k, e in enumerate(ctrl["events"]) if e["label"] == "use"][-1]
+    ctrl["events"][i]["v"] += 1
+    batches = [traces[i::4] for i in range(4)] + [[ctrl]]
+    with multiprocessing.get_context("fork").Pool(5) as pool:
+        vres = pool.map(R.validate, batches)
+    for (verdicts, prefixes, st), batch in zip(vres[:-1], batches[:-1]):
+        ctx.states += st["distinct"]
+        ctx.transitions += st["states"]
+        for ok, pre, tr in zip(verdicts, prefixes, batch):
+            ctx.traces += 1
+            if not ok:
+                ev = tr["events"]
+                ctx.violation("the log of free-running threads on an auto_reload file template (%s) is not a behaviour of "
+                              "specs/Reload.tla: no placement of the shared accesses explains it beyond event %d of %d "
+                              "(next: %s); events before: %s" % (
+                                  "file changes only between calls; every call must return the current version" if tr["quiet"]
+                                  else "file changes during calls", pre, len(ev), ev[pre] if pre < len(ev) else None,
+                                  ev[max(0, pre - 6):pre]),
+                              dict(kind="reload-trace", trace=tr, prefix=pre))
+    cv, cp, _ = vres[-1]
+    ctx.notes["reload_trace_negative_control"] = "corrupted log rejected" if not cv[0] else "ACCEPTED"
+    if cv[0]:
+        ctx.fail("negative control: a log with a wrong rendered version was accepted by ReloadTrace")
+    ctx.notes["reload_traces"] = dict(n=len(traces), events=sum(len(t["events"]) for t in traces),
+                                      with_reload_during_run=sum(1 for t in traces if sum(1 for e in t["events"] if e["label"] == "cook.begin") > 1))
+    ctx.nontrivial += sum(1 for t in traces if sum(1 for e in t["events"] if e["label"] == "cook.begin") > 1)
+    if traces:
+        ctx.sample({"reload_trace_head": traces[1]["events"][:25]})
+
+
 def run(ctx):
     rnd = random.Random(ctx.seed)
     quick = ctx.tier == "quick"
+    reload_part(ctx, quick)
     history_part(ctx, quick)
     threads_part(ctx, quick, rnd)
     # three threads: the state space is too large for BFS here; simulated schedules only (invariants checked along them)
